@@ -481,6 +481,17 @@ func checkApply(inj inject.Injector, scopes []*mscope, op Op, desc string, class
 			classes["apply-by-value-first"] = true
 		}
 	}
+	// a struct that is applied a second time, or that the caller has filled in:
+	// a tagged field gets the registered value whatever it held before
+	if op.Depth == 0 && len(op.In)%3 == 2 {
+		for i, tn := range op.In {
+			if !op.Tag[i] || universe[tn].Kind() == reflect.Interface || tn == "<-chan" {
+				continue
+			}
+			target.Elem().Field(i).Set(mkValue(tn, 7777))
+		}
+		classes["apply-to-a-filled-struct"] = true
+	}
 	// the struct may sit behind several pointers (a **T out of a generic
 	// container, say): its fields are as settable as behind one
 	handle := target
